@@ -118,6 +118,8 @@ func genOptions(c *evalCase) {
 		default:
 			c.unk = map[string]int{"k": 1}
 		}
+	case 3:
+		c.hook = pick(rng, []int{1, 2, 5, 5})
 	}
 }
 
@@ -431,9 +433,9 @@ func countHook(expr string, d interface{}, extra ...bexpr.Option) (string, int64
 
 func runC03(r *Run) {
 	r.Rule = "pairs of sub-expressions (A, B) generated against one datum (matches on resolving / absent / ill-typed selectors, quantified and negated operands; error-producing operands about 25%); predicate on the implementation: the outcome of `(A) and (B)`, `(A) or (B)`, `not (A)`, double negation and both De Morgan rewrites equals the 3x3 outcome table applied to the outcomes of A and B evaluated alone; short-circuit and left-to-right order observed by counting value-hook invocations; composites are also compared with the model; distinct = (outcome A, outcome B, shapes)"
-	n := 1500
+	n := 1000
 	if r.Tier == "thorough" {
-		n = 100000
+		n = 60000
 	}
 	absentPctDefault = 20
 	defer func() { absentPctDefault = 8 }()
